@@ -128,6 +128,24 @@ CHECKS['C02'] = dict(
          'defaults for omitted parameters, ordered plain extras).',
     design='4 C02')
 
+CHECKS['C03'] = dict(
+    technique='differential testing against the reference semantics with the '
+              'tag rule + reference-free invariants + metamorphic relation '
+              '(permutation of Union members and registration order), on '
+              'Hypothesis-generated and bounded-exhaustive tagged documents',
+    text='Generated hierarchies (chains, forks, multiple-inheritance join, '
+         'abc.ABC and @abstractmethod classes, unregistered classes, '
+         'discriminating _yatiml_recognize hooks, Unions/Optionals over '
+         'classes and built-ins, a registered Trap class) x documents derived '
+         'from instances of every class with 0-2 explicit tags; plus every '
+         'mapping document of <=3 (quick) / <=4 (thorough) nodes over 6 '
+         'hierarchy portfolio models x every class tag on the root. Exact '
+         'classes and accept/reject must equal the reference; no abstract or '
+         'unregistered class is instantiated; unknown/inadmissible tags make '
+         'the load fail; reversing and rotating Union members and '
+         'registration order never changes the outcome.',
+    design='4 C03')
+
 NOT_YET = 'check not built yet in this session (work in progress)'
 
 
